@@ -85,3 +85,7 @@ impl ManagementAction {
         }
     }
 }
+
+#[cfg(feature = "pendulum_project_ntpd_rs_verif")]
+#[path = "/verif/hooks/statime-wire/messages_management.rs"]
+pub mod vh_messages_management;
